@@ -1248,14 +1248,27 @@ func ruleNodeOwnership(c *Ctx, rule string) {
 		}
 		for i := 0; i < st.NumFields(); i++ {
 			fld := st.Field(i)
-			t := fld.Type()
-			if sl, ok := t.(*types.Slice); ok {
-				t = sl.Elem()
+			// a pointer to a page, or a slice / array / map / channel of such pointers
+			var holds func(t types.Type, depth int) bool
+			holds = func(t types.Type, depth int) bool {
+				if depth > 4 {
+					return false
+				}
+				switch u := t.(type) {
+				case *types.Pointer:
+					return namedTypeIs(u, "storage", "btreeNode")
+				case *types.Slice:
+					return holds(u.Elem(), depth+1)
+				case *types.Array:
+					return holds(u.Elem(), depth+1)
+				case *types.Map:
+					return holds(u.Elem(), depth+1) || holds(u.Key(), depth+1)
+				case *types.Chan:
+					return holds(u.Elem(), depth+1)
+				}
+				return false
 			}
-			if !namedTypeIs(t, "storage", "btreeNode") {
-				continue
-			}
-			if _, isPtr := t.(*types.Pointer); !isPtr {
+			if !holds(fld.Type(), 0) {
 				continue
 			}
 			n++
